@@ -66,6 +66,7 @@ type CallRec struct {
 	StaleAtStart     bool
 	Retry            bool
 	AttemptsBefore   int
+	FailuresBefore   int
 	Done             bool
 	Events           int
 }
